@@ -94,7 +94,15 @@ func (g *Gen) deviceFaults(p *Plan, kinds []string, max int) {
 // ---------------------------------------------------------------- C02
 
 type c02 struct {
-	s *Sys
+	s  *Sys
+	as string // report under this property id (C07 arms the same monitors across crashes)
+}
+
+func (m *c02) id() string {
+	if m.as != "" {
+		return m.as
+	}
+	return "C02"
 }
 
 func (m *c02) Name() string { return "C02" }
@@ -117,21 +125,21 @@ func (m *c02) OnCfg(old, new *configapi.Configuration, w WriteRec) {
 	oc, nc := uint64(old.Status.Committed.Index), uint64(new.Status.Committed.Index)
 	if nc != oc {
 		if nc < oc {
-			s.Report("C02", "committed-index", "moved-backwards", fmt.Sprintf("%s: committed index moved from %d back to %d (by %s)", t, oc, nc, w.Task))
+			s.Report(m.id(), "committed-index", "moved-backwards", fmt.Sprintf("%s: committed index moved from %d back to %d (by %s)", t, oc, nc, w.Task))
 		} else if nc != next(oc) {
-			s.Report("C02", "committed-index", "skipped", fmt.Sprintf("%s: committed index moved from %d to %d, skipping %d (chain %v, by %s)", t, oc, nc, next(oc), ch, w.Task))
+			s.Report(m.id(), "committed-index", "skipped", fmt.Sprintf("%s: committed index moved from %d to %d, skipping %d (chain %v, by %s)", t, oc, nc, next(oc), ch, w.Task))
 		}
 		s.K.Probe("c02-committed-advance")
 	}
 	oa, na := uint64(old.Status.Applied.Index), uint64(new.Status.Applied.Index)
 	if na != oa {
 		if na < oa {
-			s.Report("C02", "applied-index", "moved-backwards", fmt.Sprintf("%s: applied index moved from %d back to %d (by %s)", t, oa, na, w.Task))
+			s.Report(m.id(), "applied-index", "moved-backwards", fmt.Sprintf("%s: applied index moved from %d back to %d (by %s)", t, oa, na, w.Task))
 		} else if na != next(oa) {
-			s.Report("C02", "applied-index", "skipped", fmt.Sprintf("%s: applied index moved from %d to %d, skipping %d (chain %v, by %s)", t, oa, na, next(oa), ch, w.Task))
+			s.Report(m.id(), "applied-index", "skipped", fmt.Sprintf("%s: applied index moved from %d to %d, skipping %d (chain %v, by %s)", t, oa, na, next(oa), ch, w.Task))
 		}
 		if na > nc {
-			s.Report("C02", "applied-index", "ahead-of-committed", fmt.Sprintf("%s: applied index %d is ahead of committed index %d", t, na, nc))
+			s.Report(m.id(), "applied-index", "ahead-of-committed", fmt.Sprintf("%s: applied index %d is ahead of committed index %d", t, na, nc))
 		}
 	}
 }
@@ -166,7 +174,7 @@ func (m *c02) OnVals(cfgID string, keys []string, w WriteRec) {
 		return
 	}
 	if uint64(c.Status.Committed.Index) != uint64(p.Status.PrevIndex) {
-		s.Report("C02", "merge-order", "out-of-order", fmt.Sprintf("%s: values of transaction %d were merged while the committed index is %d (predecessor %d)", t, pi, c.Status.Committed.Index, p.Status.PrevIndex))
+		s.Report(m.id(), "merge-order", "out-of-order", fmt.Sprintf("%s: values of transaction %d were merged while the committed index is %d (predecessor %d)", t, pi, c.Status.Committed.Index, p.Status.PrevIndex))
 	}
 }
 
@@ -177,7 +185,7 @@ func (m *c02) OnDevSet(target string, q *DevReq) {
 	}
 	t, i, ok := taskProposal(q.Task)
 	if !ok || t != target {
-		s.Report("C02", "southbound-issuer", "unknown", fmt.Sprintf("device %s received a Set from task %q", target, q.Task))
+		s.Report(m.id(), "southbound-issuer", "unknown", fmt.Sprintf("device %s received a Set from task %q", target, q.Task))
 		return
 	}
 	s.K.Probe("c02-southbound-set")
@@ -190,14 +198,16 @@ func (m *c02) OnDevSet(target string, q *DevReq) {
 		if j >= i {
 			break
 		}
-		if !propApplyDone(s.Rec.Props[fmt.Sprintf("%s-%d", target, j)]) {
-			s.Report("C02", "southbound-order", "earlier-not-finished",
+		// finished applying = the proposal says so, or the configuration's applied index has passed it (the proposal's own
+		// status write may still be outstanding after a failed write or a restart)
+		if !propApplyDone(s.Rec.Props[fmt.Sprintf("%s-%d", target, j)]) && uint64(c.Status.Applied.Index) < j {
+			s.Report(m.id(), "southbound-order", "earlier-not-finished",
 				fmt.Sprintf("device %s was sent the change of transaction %d while transaction %d has not finished applying (%s)", target, i, j, PropPhase(s.Rec.Props[fmt.Sprintf("%s-%d", target, j)])))
 		}
 	}
 	// never a change that is not merged yet
 	if uint64(c.Status.Committed.Index) < i {
-		s.Report("C02", "southbound-order", "not-yet-merged", fmt.Sprintf("device %s was sent the change of transaction %d but the committed index is %d", target, i, c.Status.Committed.Index))
+		s.Report(m.id(), "southbound-order", "not-yet-merged", fmt.Sprintf("device %s was sent the change of transaction %d but the committed index is %d", target, i, c.Status.Committed.Index))
 	}
 }
 
